@@ -279,7 +279,7 @@ impl Space {
 				descs.push(Desc::Mut { seed: *lay, op: j as u32, ver: s.ver, rd: Rd::Bin });
 			}
 		}
-		let n_rnd: u32 = if thorough { 100_000 } else { 20_000 };
+		let n_rnd: u32 = if thorough { 400_000 } else { 20_000 };
 		for (t, tg) in targets.iter().enumerate() {
 			let both_ct = MAIN_TARGETS.contains(&tg.name);
 			for k in 0..n_rnd {
@@ -292,7 +292,7 @@ impl Space {
 				descs.push(Desc::Rnd { target: t as u16, k, ver, rd, ct });
 			}
 		}
-		let n_pre: u32 = if thorough { 1500 } else { 150 };
+		let n_pre: u32 = if thorough { 6000 } else { 300 };
 		for (i, (_, s)) in seeds.iter().enumerate() {
 			for k in 0..n_pre {
 				let (ver, rd) = if kind_of(s) == TKind::Ser {
@@ -303,7 +303,7 @@ impl Space {
 				descs.push(Desc::Pre { seed: i as u32, k, ver, rd });
 			}
 		}
-		let n_frame: u32 = if thorough { 3000 } else { 300 };
+		let n_frame: u32 = if thorough { 10_000 } else { 600 };
 		for ty in 0..=30u8 {
 			for k in 0..n_frame {
 				let ct = if k % 5 == 4 { Ct::Main } else { Ct::Auto };
